@@ -555,8 +555,7 @@ func (fv *FV) applyTrace(st *State, rf []string, f Term, args []Term, pos token.
 // not yet supported (later stages)
 
 func (fv *FV) execRangeFunc(st *State, x *ast.RangeStmt, label string, ord int, ls *LoopSpec, keyObj, valObj types.Object) *State {
-	fv.fail(x.Pos(), "range over func")
-	return nil
+	return fv.execRangeFuncMethod(st, x, label, ord, keyObj)
 }
 
 func (fv *FV) ifaceCallEffects(eff *loopEffects, callee *types.Func, recvExpr ast.Expr, c *ast.CallExpr) bool {
